@@ -282,6 +282,13 @@ def gen_obj(rnd, idx):
                 continue
             f = rnd.choice(nf)
             cons.append((rnd.choice(["leq", "geq", "lt", "gt"]), ("id", [a, f]), riddle.num(Fraction(rnd.randint(0, 20), 2), "real")))
+    # bounds on free numeric fields of the instances themselves: together with a constraint on the same field read through a variable
+    # they decide which instances the variable can still be
+    for n, cl, flds in instances:
+        for f, v in flds.items():
+            if v == ("free",) and rnd.random() < 0.4:
+                cons.append((rnd.choice(["leq", "geq", "geq"]), ("id", [n, f]), riddle.num(Fraction(rnd.randint(0, 20), 2), "real")))
+    rnd.shuffle(cons)
     pr = Printer(rnd, redundant=0.1)
     body = stmts + [pr.expr(e) + ";" for e in cons]
     text = decl_text + "\n".join(body) + "\n"
